@@ -35,7 +35,7 @@ import vlib
 
 CLOCKS = ["blockchain/blockchain.go", "core/upgrade/upgrader.go"]
 
-FAMILIES = {True: ["q1", "q2", "q3", "q4", "q5", "q6"], False: ["t1", "t2", "t3", "t4", "t5", "t6"]}
+FAMILIES = {True: ["q1", "q2", "q3", "q4", "q5", "q6", "q7"], False: ["t1", "t2", "t3", "t4", "t5", "t6", "t7"]}
 
 # transition classes the bounded model must have exercised (and exported): every action class the module claims
 NEED_KINDS = ["upgrade11:adopted", "upgrade12:adopted", "upgrade12:refused", "newgenesis", "after-upgrade:no-newgenesis",
@@ -44,7 +44,8 @@ NEED_KINDS = ["upgrade11:adopted", "upgrade12:adopted", "upgrade12:refused", "ne
               "restart:old-genesis-differs", "deliver:upgrade", "deliver:newgenesis",
               "craft:wrong-target:refused", "craft:no-quorum:refused", "craft:no-quorum:forced", "craft:out-of-window:refused", "craft:out-of-window:forced",
               "craft:ng-spurious:refused", "craft:ng-missing:refused", "craft:ng-with-upgrade:refused", "craft:v11-at-11:adopted", "craft:consistent:adopted",
-              "probe:pay11:accepted", "probe:pay11:refused", "reorg:upgrade", "reorg:newgenesis", "reorg:plain"]
+              "probe:pay11:accepted", "probe:pay11:refused", "reorg:upgrade", "reorg:newgenesis", "reorg:plain",
+              "crash:lost", "crash:kept:upgrade", "crash:kept:newgenesis"]
 
 QUIRKS = {
     "V11Always": "a block with Upgrade = 11 is admitted by Upgrader.ValidateBlock whatever the book says: at version 10 a single proposer upgrades the network "
@@ -155,6 +156,9 @@ def _signature(clause, row, rows, line):
         return "%s-offer-%s-at-v%s" % ("honest" if row.get("honest") else "crafted", _blk_kind(row.get("blk")), "+".join(vers))
     if ev in ("Block", "Deliver"):
         return "%s-%s%s" % (ev.lower(), _blk_kind(row.get("blk")), "-forced" if row.get("forced") else "")
+    if ev == "Crash":
+        b = row.get("blk", {})
+        return "crash-in-%s-block-insertion-%s" % ("upgrade" if b.get("upg") else "newgenesis" if b.get("ng") else "plain", "head-kept" if row.get("kept") else "head-lost")
     if ev == "Reorg":
         o = row.get("orphan", {})
         return "orphaned-%s-block" % ("upgrade" if o.get("upg") else "newgenesis" if o.get("ng") else "plain")
@@ -184,7 +188,7 @@ def _signature(clause, row, rows, line):
 
 
 SLIM = ("ev", "hid", "h", "n", "p", "i", "bits", "hon", "honest", "forced", "adopt", "blk", "now", "verd", "ins", "res", "msg", "msgs", "pbook", "prevupg", "k", "r",
-        "built", "to", "qs", "cs", "orphan", "ver", "vt", "votes", "elig", "can", "valid", "acc", "target", "tag")
+        "built", "to", "qs", "cs", "orphan", "ck", "wi", "lost", "kept", "ver", "vt", "votes", "elig", "can", "valid", "acc", "target", "tag")
 
 
 def _report(ctx, trace, info):
@@ -333,10 +337,8 @@ def run(ctx, quick):
     st = _stats(ctx, sps) + _stats(ctx, rfut.result())
     pool.shutdown()
     ctx.log("real worlds: " + " ".join("%s=%d" % kv for kv in sorted(st.items())))
-    for k in ("worlds", "blocks", "votes", "persists", "restarts", "offers", "crafted", "forced", "refused", "upgrades", "newgen", "delivers", "probes",
-              "queries", "full", "lagged", "empty", "cases", "listener", "reorgs"):
-        if not st.get(k):
-            raise vlib.CheckError("the driver never produced '%s' (dead driver)" % k)
+    dead = [k for k in ("worlds", "blocks", "votes", "persists", "restarts", "offers", "crafted", "forced", "refused", "upgrades", "newgen", "delivers", "probes",
+                        "queries", "full", "lagged", "empty", "cases", "listener", "reorgs", "crashes", "crashkept") if not st.get(k)]
 
     # 3. trace validation: groups of shards side by side (one TLC each); every world starts with its own Genesis line
     files = [j[1] for j in sjobs + rjobs]
@@ -357,9 +359,8 @@ def run(ctx, quick):
             evs[row.get("ev")] += 1
         vlib.write_ndjson(t, rows)
         traces.append(t)
-    for e in ("Genesis", "Query", "Vote", "Persist", "Restart", "Offer", "Block", "Deliver", "Probe", "Reorg", "Case", "Listener"):
-        if not evs.get(e):
-            raise vlib.CheckError("no '%s' line in the recorded traces (dead driver)" % e)
+    dead += ["%s line" % e for e in ("Genesis", "Query", "Vote", "Persist", "Restart", "Offer", "Block", "Deliver", "Probe", "Reorg", "Crash", "Case", "Listener")
+             if not evs.get(e)]
     with concurrent.futures.ThreadPoolExecutor(max_workers=len(traces)) as ex:
         infos = list(ex.map(lambda j: _validate(ctx, j[1], "t%d" % j[0]), list(enumerate(traces))))
     drift = sum(i["drift"] for i in infos)
@@ -377,6 +378,15 @@ def run(ctx, quick):
             ctx.notes.append(note)
     if drift:
         ctx.notes.append("conformance drift (exact prediction of Upgrade.tla not met, no clause broken): %d - %s" % (drift, dict(drift_kinds)))
+
+    # vacuity: a class of steps the module claims was never produced.  When the real code at the same time breaks clauses, the
+    # missing class is most likely a consequence of that behaviour (validators admitting what they should refuse leave nothing to
+    # force): the violations are the result; otherwise the check did not do its job
+    if dead:
+        if ctx.violations:
+            ctx.notes.append("step classes never produced in this run: %s" % ", ".join(dead))
+        else:
+            raise vlib.CheckError("the driver never produced %s (dead driver)" % ", ".join("'%s'" % d for d in dead))
 
     # binding self-test
     if clean:
